@@ -20,24 +20,24 @@ type zzPlat struct {
 
 func zzN(f float64) string { return strconv.FormatFloat(f, 'f', -1, 64) }
 
-func (p *zzPlat) add(s string)             { p.trace = append(p.trace, s) }
-func (p *zzPlat) Print(s string)           { p.add("print:" + s) }
-func (p *zzPlat) Cls()                     { p.add("cls") }
-func (p *zzPlat) Sleep(d time.Duration)    { p.add("sleep") }
-func (p *zzPlat) Yielder() Yielder         { return p.yielder }
-func (p *zzPlat) Move(x, y float64)        { p.add("move " + zzN(x) + " " + zzN(y)) }
-func (p *zzPlat) Line(x, y float64)        { p.add("line " + zzN(x) + " " + zzN(y)) }
-func (p *zzPlat) Rect(x, y float64)        { p.add("rect " + zzN(x) + " " + zzN(y)) }
-func (p *zzPlat) Circle(r float64)         { p.add("circle " + zzN(r)) }
-func (p *zzPlat) Width(w float64)          { p.add("width " + zzN(w)) }
-func (p *zzPlat) Color(s string)           { p.add("color " + s) }
-func (p *zzPlat) Clear(s string)           { p.add("clear " + s) }
-func (p *zzPlat) Stroke(s string)          { p.add("stroke " + s) }
-func (p *zzPlat) Fill(s string)            { p.add("fill " + s) }
-func (p *zzPlat) Linecap(s string)         { p.add("linecap " + s) }
-func (p *zzPlat) Text(s string)            { p.add("text " + s) }
+func (p *zzPlat) add(s string)              { p.trace = append(p.trace, s) }
+func (p *zzPlat) Print(s string)            { p.add("print:" + s) }
+func (p *zzPlat) Cls()                      { p.add("cls") }
+func (p *zzPlat) Sleep(d time.Duration)     { p.add("sleep") }
+func (p *zzPlat) Yielder() Yielder          { return p.yielder }
+func (p *zzPlat) Move(x, y float64)         { p.add("move " + zzN(x) + " " + zzN(y)) }
+func (p *zzPlat) Line(x, y float64)         { p.add("line " + zzN(x) + " " + zzN(y)) }
+func (p *zzPlat) Rect(x, y float64)         { p.add("rect " + zzN(x) + " " + zzN(y)) }
+func (p *zzPlat) Circle(r float64)          { p.add("circle " + zzN(r)) }
+func (p *zzPlat) Width(w float64)           { p.add("width " + zzN(w)) }
+func (p *zzPlat) Color(s string)            { p.add("color " + s) }
+func (p *zzPlat) Clear(s string)            { p.add("clear " + s) }
+func (p *zzPlat) Stroke(s string)           { p.add("stroke " + s) }
+func (p *zzPlat) Fill(s string)             { p.add("fill " + s) }
+func (p *zzPlat) Linecap(s string)          { p.add("linecap " + s) }
+func (p *zzPlat) Text(s string)             { p.add("text " + s) }
 func (p *zzPlat) Gridn(u float64, c string) { p.add("gridn " + zzN(u) + " " + c) }
-func (p *zzPlat) Font(m map[string]any)    { p.add("font " + strconv.Itoa(len(m))) }
+func (p *zzPlat) Font(m map[string]any)     { p.add("font " + strconv.Itoa(len(m))) }
 func (p *zzPlat) Dash(seg []float64) {
 	s := "dash"
 	for _, f := range seg {
@@ -100,7 +100,6 @@ func zzGlobalBool(ev *Evaluator, name string) bool {
 	return v.(*boolVal).V
 }
 
-
 // zzMustParse parses src; a parse failure of a harness-generated program is
 // reported (with the source and the errors) as an assertion failure.
 func zzMustParse(ev *Evaluator, src, what string) *parser.Program {
@@ -124,4 +123,3 @@ func zzSymRunes(n int) []rune {
 	}
 	return rs
 }
-
